@@ -72,8 +72,10 @@ type stepResult struct {
 
 type rtRes struct {
 	Type  string `json:"type"`
+	Via   string `json:"via"` // "direct": the ssi.URI of MakeServiceReference; "string": its String() parsed again (as stored in a document)
 	V     string `json:"v"`
 	Found string `json:"found,omitempty"`
+	Msg   string `json:"msg,omitempty"`
 }
 
 type obs struct {
@@ -312,21 +314,31 @@ func (w *world) doRoundTrip(s step) stepResult {
 	}
 	w.storeAdd(doc)
 	for i, t := range s.Types {
-		var svc did.Service
-		var err error
-		x := rtRes{Type: t}
-		if g := guarded(func() {
-			svc, err = w.svcRes.Resolve(resolver.MakeServiceReference(id, t), resolver.DefaultMaxServiceReferenceDepth)
-		}); g != "" {
-			x.V = g
-		} else if err != nil {
-			x.V = classify(err)
-		} else if svc.Type == t && svc.ServiceEndpoint == fmt.Sprintf("https://example.com/rt/%d", i) {
-			x.V = "ok"
-		} else {
-			x.V, x.Found = "wrong-service", svc.Type
+		for _, via := range []string{"direct", "string"} {
+			var svc did.Service
+			var err error
+			x := rtRes{Type: t, Via: via}
+			q := resolver.MakeServiceReference(id, t)
+			if via == "string" {
+				p, perr := ssi.ParseURI(q.String())
+				if perr != nil {
+					x.V, x.Msg = "unparsable", perr.Error()
+					r.RT = append(r.RT, x)
+					continue
+				}
+				q = *p
+			}
+			if g := guarded(func() { svc, err = w.svcRes.Resolve(q, resolver.DefaultMaxServiceReferenceDepth) }); g != "" {
+				x.V = g
+			} else if err != nil {
+				x.V, x.Msg = classify(err), err.Error()
+			} else if svc.Type == t && svc.ServiceEndpoint == fmt.Sprintf("https://example.com/rt/%d", i) {
+				x.V = "ok"
+			} else {
+				x.V, x.Found = "wrong-service", svc.Type
+			}
+			r.RT = append(r.RT, x)
 		}
-		r.RT = append(r.RT, x)
 	}
 	return r
 }
@@ -338,15 +350,12 @@ func runCase(w *world, c tcase, in input) (res caseResult) {
 			res.Error = fmt.Sprintf("driver panic: %v", r)
 		}
 	}()
-	mutable := map[string]bool{}
-	for _, m := range c.Managed {
-		mutable[m] = true
-	}
+	mutable := map[string]bool{} // documents that change in this case get a fresh DID; the others may be shared with other cases
 	for _, s := range c.Steps {
 		for _, n := range s.Nets {
 			mutable[n.D] = true
 		}
-		if s.Op == "roundtrip" {
+		if s.Op == "roundtrip" || s.Op == "add" || s.Op == "delete" {
 			mutable[s.D] = true
 		}
 	}
@@ -416,6 +425,10 @@ func TestDriver(t *testing.T) {
 	enc := json.NewEncoder(bw)
 	w := newWorld(t)
 	for _, c := range in.Cases {
+		// begin marker, flushed: if the code under test kills the process (stack overflow is not recoverable) the
+		// check knows which case did it
+		_ = enc.Encode(map[string]string{"begin": c.ID})
+		_ = bw.Flush()
 		r := runCase(w, c, in)
 		if err := enc.Encode(r); err != nil {
 			t.Fatal(err)
